@@ -36,6 +36,9 @@ pub enum TSpec {
     Own { kind: OwnKind, cont: ContKind, leaves: Vec<Lid>, ctor: Ctor, poison: bool },
     /// member wrapped in a drop-counting tag
     Tagged(usize, Box<TSpec>),
+    /// a collection built with the unchecked-at-runtime constructors (`new` / `new_ref` /
+    /// `From<&L>`) over shared owned data `datas[data]` (a container of `&mut` leaves)
+    OnData { data: usize, kind: CollKind, from: bool, poison: bool },
 }
 
 #[derive(Clone, Copy, PartialEq, Eq, Debug, Serialize, Deserialize, Hash, PartialOrd, Ord)]
@@ -76,6 +79,10 @@ pub struct WorldSpec {
     pub slots: Vec<Slot>,
     /// shared targets, built before the threads start
     pub targets: Vec<TSpec>,
+    /// owned data: containers of `&mut` arena leaves (listing order chosen freely), shared
+    /// by reference between the collections built over them
+    #[serde(default)]
+    pub datas: Vec<UnitSpec>,
     pub gates: usize,
     /// number of drop-counting tags used by `TSpec::Tagged`
     #[serde(default)]
@@ -228,6 +235,9 @@ impl WorldSpec {
                 v.extend(leaves.iter().copied());
             }
         }
+        for d in &self.datas {
+            v.extend(d.leaves.iter().copied());
+        }
         v
     }
 
@@ -294,6 +304,27 @@ impl WorldSpec {
                 self.flat_rec(&self.targets[*i], Some(*i), path, &mut np, poison, out);
             }
             TSpec::Tagged(_, inner) => self.flat_rec(inner, root, path, node_path, poison, out),
+            TSpec::OnData { data, poison: pz, .. } => {
+                if *pz {
+                    poison.push(match root {
+                        Some(r) => PoisonId::Coll(r, node_path.clone()),
+                        None => PoisonId::Private(node_path.clone()),
+                    });
+                }
+                for (i, l) in self.datas[*data].leaves.iter().enumerate() {
+                    let k = self.leaves[*l];
+                    let mut p = poison.clone();
+                    for d in 0..k.layers() {
+                        p.push(PoisonId::Leaf(*l, d));
+                    }
+                    let mut pp = path.clone();
+                    pp.push(i as u8);
+                    out.push(FlatLeaf { lid: *l, kind: k, path: pp, poison: p, unit: None });
+                }
+                if *pz {
+                    poison.pop();
+                }
+            }
             TSpec::Own { leaves, poison: pz, kind, .. } => {
                 if *pz {
                     poison.push(match root {
@@ -349,6 +380,17 @@ impl WorldSpec {
             }
             TSpec::Shared(i) => self.poison_rec(&self.targets[*i], Some(*i), &mut Vec::new(), out),
             TSpec::Tagged(_, inner) => self.poison_rec(inner, root, node_path, out),
+            TSpec::OnData { data, poison, .. } => {
+                if *poison {
+                    out.push(match root {
+                        Some(r) => PoisonId::Coll(r, node_path.clone()),
+                        None => PoisonId::Private(node_path.clone()),
+                    });
+                }
+                for l in &self.datas[*data].leaves {
+                    (0..self.leaves[*l].layers()).for_each(|d| out.push(PoisonId::Leaf(*l, d)));
+                }
+            }
             TSpec::Own { leaves, poison, .. } => {
                 if *poison {
                     out.push(match root {
@@ -380,6 +422,7 @@ impl WorldSpec {
             TSpec::Shared(i) => self.elems_rec(&self.targets[*i], out),
             TSpec::Tagged(_, inner) => self.elems_rec(inner, out),
             TSpec::Own { leaves, .. } => leaves.iter().for_each(|l| out.push(Elem::Leaf(*l))),
+            TSpec::OnData { data, .. } => self.datas[*data].leaves.iter().for_each(|l| out.push(Elem::Leaf(*l))),
         }
     }
 
@@ -417,6 +460,7 @@ impl WorldSpec {
             TSpec::Own { kind: OwnKind::Boxed, .. } => Some(CollKind::Boxed),
             TSpec::Own { kind: OwnKind::Ref, .. } => Some(CollKind::Ref),
             TSpec::Own { kind: OwnKind::Retry, .. } => Some(CollKind::Retry),
+            TSpec::OnData { kind, .. } => Some(*kind),
             _ => None,
         }
     }
@@ -426,7 +470,7 @@ impl WorldSpec {
             TSpec::Coll { members, .. } => 1 + members.iter().map(|m| self.depth(m)).max().unwrap_or(0),
             TSpec::Shared(i) => self.depth(&self.targets[*i]),
             TSpec::Tagged(_, inner) => self.depth(inner),
-            TSpec::Own { .. } => 1,
+            TSpec::Own { .. } | TSpec::OnData { .. } => 1,
             _ => 0,
         }
     }
